@@ -132,8 +132,9 @@ func runLBStop(x *X) {
 		if st.ret < first.ret {
 			first = st
 		}
-		if st.retAt-st.invAt > PT+time.Millisecond {
-			x.Violate("C19", "C19/stop-too-slow", "Stop took %v of virtual time (probe timeout %v)", st.retAt-st.invAt, PT)
+		// cancelling the balancer's context aborts in-flight probes: Stop has nothing to wait for
+		if st.retAt-st.invAt > 100*time.Millisecond {
+			x.Violate("C19", "C19/stop-waits-for-probes", "Stop took %v of virtual time with probes in flight (probe timeout %v): shutdown may not wait for a stalled health endpoint", st.retAt-st.invAt, PT)
 		}
 	}
 	for _, e := range net.snapshot() {
